@@ -71,7 +71,7 @@ ReqOf(ln) == [cmd |-> ln.q.cmd, name |-> ln.q.name, lname |-> ln.q.lname, hasnam
               G |-> ln.q.Gp, nostop |-> ln.q.nostop, graceful |-> ln.q.graceful,
               sequential |-> ln.q.sequential, raw |-> ln.q.raw, start |-> ln.q.start, addnp |-> ln.q.addnp,
               addG |-> ln.q.addGp, addW |-> ln.q.addWt, addsing |-> ln.q.addsing, nopts |-> ln.q.nopts, pattern |-> ln.q.pattern,
-              opts |-> ln.q.opts]
+              opts |-> ln.q.opts, matches |-> ln.q.matches]
 
 Tk(ms) == (ms + 50) \div 100
 
